@@ -111,6 +111,7 @@ class Engine:
         self.dec_labels = []
         self.finding_terms = {}
         self.bvcache = {}
+        self.ct = ListV(z3.IntVal(-999999), Tup(INT, INT, INT))
 
     # deterministic fresh names per path position so re-execution of a prefix yields identical terms
     def fresh(self, name, sort):
@@ -122,6 +123,12 @@ class Engine:
         terms = [self.fresh("%s.%d" % (name, i) if i else name, s) for i, s in enumerate(sorts(ty))]
         return unpack(ty, terms, self.assume)
 
+    def fresh_val_post(self, name, ty):
+        """value produced by a callee: references may denote pre-state objects (> 0) or objects the callee
+        allocated (named with the caller's next negative ids by `fresh`), so no sign is assumed"""
+        terms = [self.fresh("%s.%d" % (name, i) if i else name, s) for i, s in enumerate(sorts(ty))]
+        return unpack(ty, terms, None)
+
     def new_ref(self):
         self.alloc += 1
         return -self.alloc
@@ -131,6 +138,8 @@ class Engine:
             return
         if b is False:
             raise Infeasible()
+        if self.spec and "!b" in str(b):
+            return      # fact about a quantifier-bound variable: not a fact about the path
         key = b.get_id()
         if key in self.assumed:
             return
@@ -225,21 +234,36 @@ class Engine:
             raise Unsupported("no declared type for field %s.%s (line %d)" % (cls, attr, self.cur_line))
         return t
 
+    def fkey(self, cls, attr):
+        """heap arrays are per declaring class and attribute (Framer.stamp and StoreLike.stamp are distinct)"""
+        decl, ty = self.reg.field_decl(cls, attr)
+        if decl is None:
+            raise Unsupported("no declared type for field %s.%s (line %d)" % (cls, attr, self.cur_line))
+        return decl + "." + attr, ty
+
+    def base_arr(self, key, like):
+        return z3.Const("H_" + "_".join(str(k) for k in key), like.sort())
+
     def rd_field(self, ref, attr, ty=None):
-        ty = ty or self.field_type(ref.cls, attr)
+        name, ty = self.fkey(ref.cls, attr)
         terms = []
+        base = []
         for i, s in enumerate(sorts(ty)):
-            a = self.harr(("f", attr, i), [z3.IntSort()], s)
-            terms.append(z3.Select(a, ref.t))
-        return unpack(ty, terms, self.assume)
+            a = self.harr(("f", name, i), [z3.IntSort()], s)
+            terms.append(z3.simplify(z3.Select(a, ref.t)))
+            base.append(z3.Select(self.base_arr(("f", name, i), a), ref.t))
+        # well-typedness (references of the pre-state are positive, None is 0) is a fact about the PRE-STATE
+        # arrays; values written during the call (fresh objects have negative ids) carry no such assumption
+        unpack(ty, base, self.assume)
+        return unpack(ty, terms, None)
 
     def wr_field(self, ref, attr, val, ty=None):
-        ty = ty or self.field_type(ref.cls, attr)
+        name, ty = self.fkey(ref.cls, attr)
         terms = pack(ty, self.coerce(ty, val))
         for i, (s, t) in enumerate(zip(sorts(ty), terms)):
-            a = self.harr(("f", attr, i), [z3.IntSort()], s)
-            self.heap[("f", attr, i)] = z3.Store(a, ref.t, t)
-            self.note_write(("f", attr, i), ref.t)
+            a = self.harr(("f", name, i), [z3.IntSort()], s)
+            self.heap[("f", name, i)] = z3.Store(a, ref.t, t)
+            self.note_write(("f", name, i), ref.t)
 
     def coerce(self, ty, val):
         # a None-able value stored into a slot declared non-None: Python would store None and fail at the
@@ -251,7 +275,7 @@ class Engine:
     # lists ---------------------------------------------------------------
     def llen(self, lv):
         a = self.harr(("len",), [z3.IntSort()], z3.IntSort())
-        n = z3.Select(a, lv.t)
+        n = z3.simplify(z3.Select(a, lv.t))
         self.assume(n >= 0)
         return n
 
@@ -268,7 +292,7 @@ class Engine:
         for i, s in enumerate(sorts(et)):
             key = ("el", et.key(), i)
             a = self.harr(key, [z3.IntSort(), z3.IntSort()], s)
-            out.append(z3.Select(a, lv.t))
+            out.append(z3.simplify(z3.Select(a, lv.t)))
         return out
 
     def set_larrs(self, lv, arrs):
@@ -281,7 +305,13 @@ class Engine:
 
     def lget(self, lv, idx):
         arrs = self.larrs(lv)
-        return unpack(lv.et, [z3.Select(a, idx) for a in arrs], self.assume)
+        if lv.et is not None and lv.et.kind in ("ref", "list", "dict", "ext", "tuple", "opt"):
+            base = []
+            for i, s in enumerate(sorts(lv.et)):
+                key = ("el", lv.et.key(), i)
+                base.append(z3.Select(z3.Select(self.base_arr(key, self.heap[key]), lv.t), idx))
+            unpack(lv.et, base, self.assume)
+        return unpack(lv.et, [z3.simplify(z3.Select(a, idx)) for a in arrs], None)
 
     def new_list(self, et, n=0, arrs=None, kind="list"):
         lv = ListV(self.new_ref(), et, kind=kind)
@@ -357,6 +387,25 @@ class Engine:
     def ddel(self, dv, k):
         kt = self.dkey(dv, k)
         self.set_ddom(dv, z3.Store(self.ddom(dv), kt, z3.BoolVal(False)))
+
+    # ghost trace of the direct calls made by the function under verification --------------------
+    def ct_reset(self):
+        self.set_llen(self.ct, z3.IntVal(0))
+
+    def ct_append(self, name, recv=None, arg=None):
+        from . import builtins_ as B
+
+        def ref_of(v):
+            if isinstance(v, (RefV, ListV, DictV, ExtV)):
+                return Sym(v.t, "int")
+            if isinstance(v, Sym) and v.k == "int":
+                return v
+            if isinstance(v, bool):
+                return int(v)
+            if isinstance(v, int):
+                return v
+            return 0
+        B.list_method(self, self.ct, "append", [(call_code(name), ref_of(recv), ref_of(arg))], {})
 
     # loop write tracking -----------------------------------------------------
     def note_write(self, key, ref_t):
@@ -899,11 +948,17 @@ def _is_numeral(t):
     return z3.is_rational_value(t) or z3.is_int_value(t) or z3.is_algebraic_value(t)
 
 
+def call_code(name):
+    """stable small integer naming a callee in the ghost call trace"""
+    import zlib
+    return zlib.crc32(name.encode()) & 0x3FFFFFFF
+
+
 class _Unbound:
     def __repr__(self):
         return "<unbound>"
 
 
 _UNBOUND = _Unbound()
-_SPEC_TYPES = {"INT": V.INT, "REAL": V.REAL, "BOOL": V.BOOL, "STR": V.STR, "BYTES": V.BYTES}
+_SPEC_TYPES = {"Ref": V.Ref, "List": V.List, "Opt": V.Opt, "Tup": V.Tup, "INT": V.INT, "REAL": V.REAL, "BOOL": V.BOOL, "STR": V.STR, "BYTES": V.BYTES}
 _BUILTIN_NAMES = {}
